@@ -110,6 +110,22 @@ impl ast::Visit for Visitor<'_, '_> {
                 }
             },
 
+            // a const's initializer must have the declared type (the variable itself is not an expression
+            // here, so it is not visited; nothing else compares the two types)
+            ast::Item::ConstVar { ty_keyword, vars } => {
+                for sp_pat![(_, expr)] in vars {
+                    let result = self.check_expr_as_value(expr, ty_keyword.span).and_then(|value_ty| {
+                        match ty_keyword.value.var_ty() {
+                            VarType::Typed(decl_ty) => self._require_exact(value_ty, decl_ty, ty_keyword.span, expr.span),
+                            VarType::Untyped { .. } => Ok(()),
+                        }
+                    });
+                    if let Err(e) = result {
+                        self.errors.set(e);
+                    }
+                }
+            },
+
             _ => ast::walk_item(self, item),
         }
     }
